@@ -51,6 +51,8 @@ class CouponHashSet : public CouponList<A> {
   private:
     using ChsAlloc = typename std::allocator_traits<A>::template rebind_alloc<CouponHashSet<A>>;
     bool checkGrowOrPromote();
+    static void checkSetCount(uint32_t couponCount, uint8_t lgConfigK);
+    void checkCountMatchesArray() const;
     void growHashSet(uint8_t tgtLgCoupArrSize);
 };
 
